@@ -27,12 +27,17 @@ impl Drop for Server {
 
 /// A free loopback port (UDP and TCP).
 pub fn free_port() -> u16 {
-    for _ in 0..200 {
-        if let Ok(u) = UdpSocket::bind("127.0.0.1:0") {
-            let p = u.local_addr().unwrap().port();
-            if std::net::TcpListener::bind(("127.0.0.1", p)).is_ok() {
-                return p;
-            }
+    // Every harness process walks its own stride through 20000..60000 so that
+    // concurrently running shards do not pick the same port between the probe
+    // and the server's own bind.
+    use std::sync::atomic::{AtomicU32, Ordering};
+    static NEXT: AtomicU32 = AtomicU32::new(0);
+    let pid = std::process::id();
+    for _ in 0..2000 {
+        let n = NEXT.fetch_add(1, Ordering::Relaxed);
+        let p = 20_000 + ((pid.wrapping_mul(7919).wrapping_add(n.wrapping_mul(61))) % 40_000) as u16;
+        if UdpSocket::bind(("127.0.0.1", p)).is_ok() && std::net::TcpListener::bind(("127.0.0.1", p)).is_ok() {
+            return p;
         }
     }
     panic!("no free port");
@@ -94,7 +99,20 @@ impl Server {
                 std::thread::sleep(Duration::from_millis(20));
             }
             if up {
-                return Ok(Server { child, addr, dir, log_path });
+                // the metrics endpoint is bound last; a failure there makes the
+                // server exit: wait for that bind to be over before trusting it
+                let t1 = Instant::now();
+                while t1.elapsed() < Duration::from_secs(3) {
+                    let log = std::fs::read_to_string(&log_path).unwrap_or_default();
+                    if log.contains("binding HTTP TCP socket") {
+                        break;
+                    }
+                    std::thread::sleep(Duration::from_millis(10));
+                }
+                std::thread::sleep(Duration::from_millis(150));
+                if matches!(child.try_wait(), Ok(None)) {
+                    return Ok(Server { child, addr, dir, log_path });
+                }
             }
             let _ = child.kill();
             let _ = child.wait();
@@ -165,8 +183,11 @@ pub fn tcp_exchange(addr: SocketAddr, payload: &[u8], style: TcpStyle, timeout: 
             let mut step = 1;
             while i < wire.len() {
                 let end = (i + step).min(wire.len());
-                s.write_all(&wire[i..end])?;
-                s.flush()?;
+                // the server may answer (and close) before it has the whole
+                // message: stop sending and read what it said
+                if s.write_all(&wire[i..end]).is_err() || s.flush().is_err() {
+                    break;
+                }
                 std::thread::sleep(Duration::from_millis(2));
                 i = end;
                 step = (step * 3).min(4096);
